@@ -775,6 +775,11 @@ func (m *MutableOverlayWorld) FindReferences(id b6.FeatureID, typed ...b6.Featur
 
 	baseReferences := m.base.FindReferences(id) // Not limiting by type in base search.
 	for baseReferences.Next() {
+		if m.features.HasFeatureWithID(baseReferences.FeatureID()) {
+			// Replaced in this world, so what it currently references is
+			// recorded in m.references, not in the base.
+			continue
+		}
 		references[baseReferences.FeatureID()] = true
 		for _, reference := range m.references.FindReferences(baseReferences.FeatureID(), typed...) {
 			references[reference.Source()] = true
